@@ -94,6 +94,18 @@ let parse_result (text : n list) (print_tree : bool) : string =
     ";rt=" ^ bool01 rt ^ (if inst = ";wf=1" then "" else if inst = "" then "" else ";chk=RT-FAIL") ^
     ";class=parse:ok-" ^ kind ^ (if rt then "" else "-nort") ^ (if inst = "" then "" else "-wf")
 
+let sized_doc (kind : string) (n : int) : string =
+  if kind = "s" then (if n < 2 then String.make n '"' else "\"" ^ String.make (n - 2) 'a' ^ "\"")
+  else if kind = "w" then (if n < 3 then String.make n '[' else "[1" ^ String.make (n - 3) ' ' ^ "]")
+  else if n < 3 then String.make n '['
+  else begin
+    let k = (n - 3) / 3 and rem = (n - 3) mod 3 in
+    let b = Buffer.create (n + 4) in
+    Buffer.add_char b '[';
+    for _ = 1 to k do Buffer.add_string b "7, " done;
+    Buffer.add_string b (String.make (1 + rem) '7'); Buffer.add_char b ']';
+    Buffer.contents b end
+
 let mk_op (s : string) : pop =
   match String.split_on_char ':' s with
   | ["add"; p; v] -> PAdd (ptr_parse (s_of_hex p), getv (build_s v))
@@ -140,6 +152,25 @@ let handle (p : string) : string =
             if close then for i = n downto 1 do Buffer.add_string b (if (i - 1) land 1 = 1 then "}" else "]") done);
     let r = parse_result (bytes_of_string (Buffer.contents b)) false in
     r ^ "-deep" ^ (if n > int_of_n mAX_DEPTH then "-over" else if n = int_of_n mAX_DEPTH then "-at" else "-under")
+  | ["len"; kind; n] ->
+    let n = ios n in
+    let r = parse_result (bytes_of_string (sized_doc kind n)) false in
+    let is_pow2pm1 = List.exists (fun k -> abs (n - (1 lsl k)) <= 1) [5; 6; 7; 8; 9; 10; 11; 12; 13; 14; 15; 16] in
+    r ^ "-len" ^ kind ^ (if is_pow2pm1 then "-pow2" else "")
+  | ["seq"; ts] ->
+    let texts = List.map s_of_hex (String.split_on_char ',' ts) in
+    let rs = parse_seq texts in
+    let b = Buffer.create 256 in
+    let nok = ref 0 and nerr = ref 0 in
+    List.iteri (fun i r ->
+      Buffer.add_string b (Printf.sprintf "p%d=%s;" i
+        (match r with
+         | POk (v, _) -> incr nok; "ok:" ^ show v
+         | PErr e -> incr nerr; "err:" ^ hex_of_string err_text.(int_of_n e)
+         | PFuel -> "FUEL" | PDeep -> "DEEP"))) rs;
+    Buffer.add_string b "fresh=1";
+    Buffer.add_string b (Printf.sprintf ";class=seq:%dok-%derr" (min !nok 4) (min !nerr 4));
+    Buffer.contents b
   | ["tree"; enc] ->
     let v = getv (build_s enc) in
     let w = write cx_api O v in
